@@ -28,11 +28,13 @@ EXHAUSTIVE = {
     "quick": "key size 1: every pair of keys differing in one bit position (all 8 positions) set, checked and cleared",
     "thorough": "key sizes 1 and 2: every single-bit-flip neighbour of a base key at every bit position",
 }
+# thorough tier: the repository's own tests replayed under this run-time contract
+REPO_TESTS = {"files": ["tests/core/test_smt.py"], "contracts": ["smt_set_get"]}
 FLOORS = {"quick": {k: 1 for k in [
     "audits", "lookups_readable", "lookups_blank", "calc_root_checks", "returned_hashes_checked", "from_db_checks",
     "cleared_to_initial", "default_blank", "default_nonblank", "ks_1", "ks_2", "ks_3", "ks_8", "ks_20", "ks_32",
     "op_set_new", "op_overwrite", "op_delete_present", "op_delete_absent", "bitpos_pairs",
-    "op_set_blank_default_nonblank", "op_set_blank_default_blank"]}}
+    "op_set_blank_default_nonblank", "op_set_blank_default_blank", "two_tree_interleavings"]}}
 FLOORS["thorough"] = dict(FLOORS["quick"])
 
 DEFAULTS = [b"", b"", b"\x00" * 32, b"dflt"]
@@ -117,6 +119,13 @@ def run_case(case, ctx):
         raise Violation("smt-root", "initial root differs from the reference root of the all-default tree")
     base = int.from_bytes(unhx(case["base"]), "big")
     m = {}
+    # a second, independent tree alive at the same time (other default, other contents under the
+    # SAME keys): reads are interleaved between the two, so anything one instance remembers
+    # must not leak into the other
+    odefault = b"other-default" if default != b"other-default" else b""
+    oref = RefSMT(ks, odefault)
+    other = cut(SparseMerkleTree, key_size=ks, default=odefault)
+    mo = {}
     ctx.count("ks_%d" % ks)
     ctx.count("default_blank" if default == b"" else "default_nonblank")
     for op in case["ops"]:
@@ -147,6 +156,16 @@ def run_case(case, ctx):
             ctx.count("returned_hashes_checked")
         probes = set(m) | {base, base ^ 1, base ^ (1 << (depth - 1)), rnd.getrandbits(depth), k}
         audit(smt, ref, m, default, ks, sorted(probes), ctx)
+        # the other tree: sometimes written under the same key, always read right after the
+        # first tree was read (and the first tree again after it)
+        if rnd.random() < 0.5:
+            ov = bytes([rnd.randrange(1, 256)]) * 5
+            cut(other.set, kb, ov)
+            mo[k] = ov
+        few = sorted(probes)[:3] + [k]
+        audit(other, oref, mo, odefault, ks, few, ctx)
+        audit(smt, ref, m, default, ks, few, ctx)
+        ctx.count("two_tree_interleavings")
         s2 = cut(SparseMerkleTree.from_db, smt.db, smt.root_hash, key_size=ks, default=default)
         for q in list(m)[:4]:
             qb = q.to_bytes(ks, "big")
